@@ -94,7 +94,8 @@ class BaseGeo(BaseTransform):
             style_kwargs = {}
             for k, v in kwargs.items():
                 if k.startswith("style_"):
-                    style_kwargs[k[6:]] = v
+                    # kept for lazy style creation like `style`: independent of the caller's value
+                    style_kwargs[k[6:]] = deepcopy(v)
                 else:
                     raise TypeError(
                         f"__init__() got an unexpected keyword argument {k!r}"
